@@ -85,11 +85,18 @@ CLAIMS["C03"] = dict(
         "and left_recursive flags the REAL generator computed are validated, per (grammar, order), by the verified checker of "
         "C16 (they are exactly the mutual-reachability classes of the real first graph / the rules on a cycle of it). On the "
         "implementation: flags equal across permutations, parse results equal across permutations on enumerated inputs, "
-        "no RecursionError for grammars without recursion through lookahead operands.",
-   design="6/C03", technique="Coq proof (simulation of the stateful visitor by its pure reading; least pre-fixed point) + table re-extraction + correspondence over permutations",
-   note="Partial: order independence of the per-item flags/first graph and the semantic soundness of the analysis w.r.t. "
-        "PEG (every same-position re-entry follows a first-graph edge; no unbounded recursion) are validated by the "
-        "correspondence and the permutation/parse sweeps, not yet by theorems. Completeness of left-recursion marking is "
+        "no RecursionError. TERMINATION THEOREM (Proofs/PegTotal.v, C03_no_cycle_at_one_position_means_every_parse_terminates), "
+        "for all grammars, token lists and action interpretations: given nullable flags closed under the equations of the "
+        "extracted table and a rank of the rules that strictly decreases along every initial invocation (references reachable "
+        "without consuming a token: after nullable items, inside groups, optionals, repetitions, forced items, gather elements "
+        "and separators, and inside LOOKAHEAD OPERANDS), and no repetition over something that can match nothing, every rule has "
+        "a result at every position in the reference semantics (no infinite derivation; nested induction on remaining input, "
+        "rank, structure). The conditions are a verified decidable checker evaluated per explored grammar that the real analysis "
+        "finds free of left recursion, with the REAL flags and a rank computed from the REAL first graph: a missing edge fails it.",
+   design="6/C03", technique="Coq proofs (simulation of the stateful visitor by its pure reading; least pre-fixed point; termination of the reference semantics by rank) + table re-extraction + verified checkers on the real analysis output + correspondence over permutations",
+   note="Partial: order independence of the per-item flags/first graph is validated by the correspondence and the "
+        "permutation sweeps; termination is a theorem about the reference semantics (the generated parser is tied to it case "
+        "by case, C01), instantiated per explored grammar. Completeness of left-recursion marking is "
         "relative to the SCC computation (C16).")
 CLAIMS["C10"] = dict(
    text="The generator is modelled as a Coq function (Gen/Gen.v: call maker with its identity cache, helper-rule "
@@ -97,11 +104,16 @@ CLAIMS["C10"] = dict(
         "source each run; the tie is text equality: render(generate g) must equal, character for character, what "
         "PythonParserGenerator writes (or the same error class) on every repository grammar incl. python.gram (thorough) "
         "and on random grammars. Theorems (Props/C10.v): the keyword tables are strictly sorted, duplicate-free and have "
-        "exactly the collected members; determinism w.r.t. set iteration/rule order rests on Props/C03.v and C16.v. On the "
+        "exactly the collected members; for EVERY grammar and analysis result the module the generator model emits has one "
+        "method per rule, named after it, in grammar order, followed by helper methods _tmp_k/_loop0_k/_loop1_k/_gather_k with "
+        "pairwise distinct numbers k (Proofs/GenNames.v: the work list is only extended at its end by rules named after fresh "
+        "counter values), and its keyword tables are strictly sorted and hold exactly the quoted words of the grammar "
+        "(C10_generated_keyword_tables_sorted_and_exact, from the C11 generator theorem); determinism w.r.t. set "
+        "iteration/rule order rests on Props/C03.v and C16.v. On the "
         "implementation: compile() of every output, one method per rule in grammar order, keyword tuples equal to an "
         "independent count, and byte-identical output across PYTHONHASHSEED values, entry points (memory, build API, "
         "CLI), repeated generation from one Grammar object and warm-up histories.",
-   design="6/C10", technique="Coq model of the generator checked by exact text correspondence + sortedness proof + determinism sweeps over seeds/entry points/histories",
+   design="6/C10", technique="Coq model of the generator checked by exact text correspondence + generator invariants (methods follow the rules; tables sorted and exact) + determinism sweeps over seeds/entry points/histories",
    note="'Is valid Python' is decided by compile() of real outputs (text-level fact, no theorem). Known finding: invalid_x* generates an uncompilable module.")
 CLAIMS["C05"] = dict(
    text="Coq theorem (Props/C05.v) over the runtime model (Runtime/Exec.v: memoize incl. verbose path, memoize_left_rec "
